@@ -342,8 +342,9 @@ func emitK6(o *lib.Out, scratch string) {
 // ---------------------------------------------------------------- K6b on an in-process nsqd
 // A reconnect inside a topic deletion: DeleteExistingTopic has run topic.Delete() (exit flag
 // set, UNREGISTER served) but has not yet removed the topic from n.topicMap when the peer
-// reconnects; connectCallback walks the map without looking at Exiting() and registers the
-// dying topic again; nothing unregisters it afterwards.
+// reconnects.  Before fix 342c6f2 connectCallback registered the dying topic again and nothing
+// unregistered it afterwards; it now skips Exiting() objects.  Kept as a regression witness:
+// the registrations must equal the live set.
 func emitK6b(o *lib.Out, scratch string) {
 	ld, err := startLookupd()
 	if err != nil {
@@ -397,7 +398,8 @@ func emitK6b(o *lib.Out, scratch string) {
 	for accepted() == a0 && time.Now().Before(dl) {
 		time.Sleep(5 * time.Millisecond)
 	}
-	during := waitRegs([]string{"T:t0", "T:t1"}, 3*time.Second)
+	during := waitRegs([]string{"T:t1"}, 3*time.Second) // (before the fix: t0 came back here)
+	time.Sleep(3 * heartbeat)                           // let a few more heartbeats pass while the deletion is still parked
 	release()
 	<-delDone
 	t0 := time.Now()
@@ -416,9 +418,9 @@ func emitK6b(o *lib.Out, scratch string) {
 	ph := fmt.Sprintf("(J16.mkPhase %s [true] [true] [%s] %s true true)", lib.CoqList(ops), coqKeys(regs), coqKeys(live))
 	o.Emit(lib.Case{Name: "k6b-reconnect-inside-topic-deletion", Coq: "(J16.Scenario [" + ph + "])",
 		Input: map[string]interface{}{"kind": "k6b"},
-		Tags:  []string{"kind=k6b", "kf=K6b", fmt.Sprintf("stale=%v", !eqStrings(regs, live))}, Nontrivial: true,
+		Tags:  []string{"kind=k6b", fmt.Sprintf("stale=%v", !eqStrings(regs, live))}, Nontrivial: true,
 		Obs: map[string]interface{}{"lookupd_registrations": regs, "nsqd_live": live, "registrations_while_parked": during, "ticks_waited": ticks,
-			"schedule": "GetTopic(t0); GetTopic(t1); [arm park at delete-topic:before-remove]; DeleteExistingTopic(t0) parks after topic.Delete() (UNREGISTER t0 served, t0 still in n.topicMap); the lookupd connection is cut; heartbeat 1: PING fails, peer closed; heartbeat 2: reconnect, connectCallback registers t0 (exiting, still mapped) and t1; release: t0 leaves the map; nothing unregisters t0 any more"}})
+			"schedule": "GetTopic(t0); GetTopic(t1); [arm park at delete-topic:before-remove]; DeleteExistingTopic(t0) parks after topic.Delete() (UNREGISTER t0 served, t0 still in n.topicMap); the lookupd connection is cut; heartbeat 1: PING fails, peer closed; heartbeat 2: reconnect, connectCallback must skip t0 (exiting, still mapped) and register t1; release: t0 leaves the map"}})
 }
 
 var _ = bufio.NewReader
